@@ -72,6 +72,13 @@ CFG = {
         "Leptos.ServerFn.C13_middleware_identity",
         "Leptos.ServerFn.C13_middleware_block",
         "Leptos.ServerFn.C13_noargs",
+        # websocket protocol
+        "Leptos.ServerFn.C13_ws_exchange",
+        "Leptos.ServerFn.C13_ws_conversation",
+        "Leptos.ServerFn.C13_ws_send_transmits",
+        # body placement (trivial in the model = the specification; exercised on the implementation side)
+        "Leptos.ServerFn.C13_body_placement",
+        "Leptos.ServerFn.C13_decode_placement_independent",
         # regression witnesses for the repaired F-C13-2 (old per-chunk decoder)
         "Leptos.ServerFn.C13_text_stream_witness",
         "Leptos.ServerFn.C13_text_stream_old_false",
@@ -93,7 +100,12 @@ CFG = {
             "#[server(rename)] arguments, no arguments, ten arguments, a hand-written generic ServerFn impl), the registered path of "
             "every function against the derivation extracted from server_fn_macro, the non-JS <form> fallback (Accept: text/html + "
             "Referer with/without query, fragment, stale error pairs, or absent) for every error variant x three error encodings "
-            "(ServerFnErrorEncoding, JSON, binary CBOR), #[middleware] layers (pass-through; a layer that answers itself). (c) TESTING (not proof): truncated / bit-flipped / extended request and response bodies "
+            "(ServerFnErrorEncoding, JSON, binary CBOR), #[middleware] layers (pass-through; a layer that answers itself); BODY PLACEMENT as a "
+            "transport dimension: request and response bodies delivered in their own allocation or as a sub-slice of a larger buffer at "
+            "every offset 0..15 from a 16-byte boundary, for Rkyv, Cbor, MsgPack, Postcard (and mixed pairs) over a value type with "
+            "out-of-line u64 / f64 / u128 / Box<i128> data under a 4-aligned root; the Websocket<JsonEncoding, JsonEncoding> protocol in "
+            "interactive (wait for answer k before sending k+1) and batch conversations, Ok and Err items, observable = answers seen "
+            "(or `hang`), oracle = the direct conversation. (c) TESTING (not proof): truncated / bit-flipped / extended request and response bodies "
             "under catch_unwind for every codec, oracle = an Ok or an Err of the declared type, never a panic. "
             "distinct = distinct op line; every op carries at least one generated string or byte string (non-trivial)",
     "trusted": [
@@ -118,13 +130,15 @@ CFG = {
         "an Err item as ser() bytes, decoded with E::de",
         "ServerFnCall::server_fn_url (server_fn_macro: ServerFn::PATH)", "ServerFn::run_on_server with form-redirects (Accept: text/html)",
         "Res::redirect (generic)", "middleware::{Layer, Service, BoxedService} composition as in get_server_fn_service",
+        "Websocket::{run_client, run_server} (item encode/decode, SinkExt::send = feed + flush)",
         "decode_text_chunks (FromReq/FromRes of StreamingText: incomplete UTF-8 tail carried to the next chunk)",
     ],
     "assumptions": [
         "server_fn feature `multipart` (MultipartFormData) is excluded: its dependency `multer` is not in the offline registry",
         "browser / reqwest / axum / actix back ends are not exercised: the client half is the harness' LoopReq/LoopRes "
         "(same constructor semantics as request/reqwest.rs), the server half is the generic http::Request<Bytes> back end",
-        "websocket protocol not covered (no executor-independent transport offline)",
+        "websocket protocol: exercised over an in-memory duplex (futures mpsc) on one LocalPool with a client write half that only "
+        "transmits on flush / close / more than 8 queued frames; real sockets (tungstenite, gloo-net, axum/actix upgrades) are not",
         "a failed item of a streamed response travels as the Display text of the throw_error::Error the generic Body::Async carries "
         "(= ServerFnErrorWrapper = ser() for text error encoders); error types with a *binary* Encoder are not exercised on that path",
         "custom error payloads: the round trip of WrappedServerError(E) is stated under E's own Display/FromStr round trip",
